@@ -1,5 +1,6 @@
 """C17 — NCBI feature-table export lists the model's genes 5'->3', partial marks correct."""
 import io
+import json
 import warnings
 
 from hypothesis import strategies as st
@@ -239,21 +240,27 @@ def _one_collection(draw, min_genes=1, tag=""):
     for i in range(ng):
         strand = draw(st.sampled_from(["+", "-"]))
         coding = draw(st.sampled_from([True, True, True, False]))
-        t = draw(S.transcript_spec(max_exons=3, max_len=12, strand=strand, coding=coding, zero_gap_cds=True, frameshift_prob=0, start_min=cursor, start_max=2))
-        t["transcript_id"] = draw(st.one_of(st.none(), st.just("tx%d" % i))) if coding else "tx%d" % i
-        t["is_primary_tx"] = None
-        t["qualifiers"] = draw(st.sampled_from([{}, {}, {"product": ["my_product"]}, {"db_xref": ["GeneID:1"]}, {"gene_synonym": ["syn1", "syn2"]}, {"db_xref": ["GeneID:1", "UniProt:P1", "taxon:9606", "X:a"], "gene_synonym": ["alpha", "beta", "gamma", "delta"]}]))
-        if coding:
-            t["transcript_type"] = "protein_coding"
-            gtype = "protein_coding"
-        else:
-            gtype = draw(st.sampled_from(["ncRNA", "tRNA", "rRNA", "misc_RNA", "lncRNA"]))
+        # one to three isoforms per gene (all coding or all non-coding, the writer's documented assumption); the order of the
+        # isoforms is free, so the primary one (longest CDS) is not always the first nor the one with the in-frame stop
+        gtype = "protein_coding" if coding else draw(st.sampled_from(["ncRNA", "tRNA", "rRNA", "misc_RNA", "lncRNA"]))
+        txs, seen_ = [], set()
+        for j in range(draw(st.sampled_from([1, 1, 2, 3]))):
+            t = draw(S.transcript_spec(max_exons=3, max_len=12, strand=strand, coding=coding, zero_gap_cds=True, frameshift_prob=0, start_min=cursor, start_max=2))
+            key_ = json.dumps([t["exons"], t.get("cds")])
+            if key_ in seen_:
+                continue
+            seen_.add(key_)
+            t["transcript_id"] = (draw(st.one_of(st.none(), st.just("tx%d_%d" % (i, j)))) if coding and j == 0 else "tx%d_%d" % (i, j))
+            t["is_primary_tx"] = None
+            t["qualifiers"] = draw(st.sampled_from([{}, {}, {"product": ["my_product"]}, {"db_xref": ["GeneID:1"]}, {"gene_synonym": ["syn1", "syn2"]}, {"db_xref": ["GeneID:1", "UniProt:P1", "taxon:9606", "X:a"], "gene_synonym": ["alpha", "beta", "gamma", "delta"]}]))
             t["transcript_type"] = gtype
-        genes.append({"transcripts": [t], "gene_id": None, "gene_symbol": draw(st.one_of(st.none(), st.just("GENE%s%d" % (tag, i)))), "gene_type": gtype,
+            txs.append(t)
+            if coding:
+                plants.append((t, draw(st.sampled_from(["ATG", "ATG", "ATG", "TTG", "GTG", None, None])), draw(st.sampled_from(["TAA", "TGA", "TAG", None])),
+                               draw(st.sampled_from([None, None, None, "TAA"])), draw(st.integers(0, 50))))
+        genes.append({"transcripts": txs, "gene_id": None, "gene_symbol": draw(st.one_of(st.none(), st.just("GENE%s%d" % (tag, i)))), "gene_type": gtype,
                       "locus_tag": draw(st.one_of(st.none(), st.just("OLD_%d" % i))), "qualifiers": {}})
-        if coding:
-            plants.append((t, draw(st.sampled_from(["ATG", "ATG", "ATG", "TTG", "GTG", None, None])), draw(st.sampled_from(["TAA", "TGA", "TAG", None])),
-                           draw(st.sampled_from([None, None, None, "TAA"])), draw(st.integers(0, 50))))
+        t = max(txs, key=lambda t_: t_["exons"][-1][1])
         cursor = t["exons"][-1][1] + draw(st.integers(1, 6))
     n = cursor + draw(st.integers(1, 4))
     g = draw(S.dna(n, n))
@@ -279,9 +286,9 @@ PROP = Prop(
     legs=[
         Leg("tbl", check_tbl, strategy=strat_tbl, n_quick=700, n_thorough=6000, shards_quick=4,
             must_hit=["5p_partial", "3p_partial_frame", "3p_partial_nostop", "pseudo", "adjacent_cds_merged", "minus_multi_exon", "seed0", "complete_cds", "alt_start", "exported_under_another_hash_seed", "several_sequences_with_genes"],
-            rule="1..3 collections (sequences) per table, each with sequence on a whole chromosome, 1..3 genes (one transcript each; coding with start offsets 0/1/2 and 0-bp-gap CDS blocks, or ncRNA/tRNA/rRNA/misc_RNA/lncRNA), sequences with planted start / stop / in-frame stop codons, x flavour x translation table x locus_tag_jump_size x random_seed (incl. 0) x optional prefix/lab; the text is read by an independent 5-column reader"),
+            rule="1..3 collections (sequences) per table, each with sequence on a whole chromosome, 1..3 genes (1..3 isoforms each; coding with start offsets 0/1/2 and 0-bp-gap CDS blocks, or ncRNA/tRNA/rRNA/misc_RNA/lncRNA), sequences with planted start / stop / in-frame stop codons, x flavour x translation table x locus_tag_jump_size x random_seed (incl. 0) x optional prefix/lab; the text is read by an independent 5-column reader"),
     ],
     rule="Oracle: independent TBL reader; merged source blocks as 1-based inclusive 5'->3' intervals; FrameModel + codon tables for partial marks, codon_start and pseudo. "
          "Non-trivial: minus multi-exon, or a partial mark, or pseudo.",
-    assumptions=["genes have one transcript and are all-coding or all-non-coding (the writer documents that assumption)", "ACGT sequences only"],
+    assumptions=["genes have 1..3 isoforms that are all coding or all non-coding (the writer documents that assumption)", "ACGT sequences only"],
 )
